@@ -850,7 +850,7 @@ def tie_views(ctx: Ctx):
 
     # ---- writes
     witems = []
-    for _ in range(ctx.scale(400, 8000)):
+    for _ in range(ctx.scale(150, 4000)):
         qual = rng.choice(QKS)
         d = rng.choice(DIRS) if qual == "port" else "-"
         w = rng.choice([1, 2, 3, 4, 8, 8, 12, 65])
@@ -902,6 +902,455 @@ def tie_views(ctx: Ctx):
                     "observed": r2[1] if r2[0] == "ok" else None})
     ctx.obligation("correspondence: storage of the root after sequences of writes through views = Lean `write` on the view's cells",
                    badw == 0, detail=f"{len(witems)} write sequences, {badw} with differences")
+
+
+# ------------------------------------------------------------------------------------------------
+# tie 2b: sessions - views created before and after writes, every kind of written value, all live views checked
+# ------------------------------------------------------------------------------------------------
+# session = (qual, dir, vt, init_bits_lsb_first, steps)
+# step    = ("v", parent_slot, op) | ("w", target_slot, setter_cast|None, source)
+# source  = ("null",) | ("full",) | ("str", bits_lsb) | ("vec", kind, bits_lsb) | ("int", n) | ("bit", b) | ("bool", b)
+#           | ("view", slot)
+# slot 0 = the root; the n-th "v" step owns slot n (also when the construction is rejected)
+
+
+def slot_kinds(vt, w, steps):
+    """(kind, width) of every slot as the generator's bookkeeping sees it (None = rejected / unknown)"""
+    slots = [(vt, w)]
+    for st in steps:
+        if st[0] != "v":
+            continue
+        par = slots[st[1]] if st[1] < len(slots) else None
+        op = st[2]
+        r = None
+        if par is not None and par[0] != "bit":
+            k, n = par
+            if op[0] == "slice" and op[2] <= op[1] < n:
+                r = ("bv", op[1] - op[2] + 1)
+            elif op[0] in ("index", "iter") and op[1] < n:
+                r = ("bit", 1)
+            elif op[0] == "cast":
+                r = (op[1], n)
+        slots.append(r)
+    return slots
+
+
+def bits_of_int(v, n):
+    return "".join("1" if (v >> i) & 1 else "0" for i in range(n))
+
+
+def expected_write(tk, n, src, slots):
+    """what the assignment `target <- src` does, target of kind tk and width n: ("w", bits) | ("cs", slot) |
+    ("cn", slot, "z"|"s") | ("x",) rejected.  Mirrors BitVector/Unsigned/Signed/Bit `_assign` (value conversion is
+    property C05; here only well-defined cases are generated)."""
+    k = src[0]
+    if tk == "bit":
+        if k == "null":
+            return ("w", "0")
+        if k == "full":
+            return ("w", "1")
+        if k in ("bit", "bool"):
+            return ("w", "1" if src[1] else "0")
+        if k == "int":
+            return ("w", str(src[1])) if src[1] in (0, 1) else ("x",)
+        if k == "str":
+            return ("w", src[1]) if src[1] in ("0", "1") else ("x",)
+        if k == "view":
+            sk = slots[src[1]]
+            return ("cs", src[1]) if sk is not None and sk[0] == "bit" else ("x",)
+        return ("x",)
+    if k == "null":
+        return ("w", "0" * n)
+    if k == "full":
+        return ("w", "1" * n)
+    if k == "str":
+        return ("w", src[1]) if len(src[1]) == n else ("x",)
+    if k in ("bit", "bool"):
+        return ("x",)
+    if k == "int":
+        v = src[1]
+        if tk == "uns" and 0 <= v < (1 << n):
+            return ("w", bits_of_int(v, n))
+        if tk == "sgn" and -(1 << (n - 1)) <= v < (1 << (n - 1)):
+            return ("w", bits_of_int(v & ((1 << n) - 1), n))
+        return ("x",)
+    if k == "vec":
+        sk, sb = src[1], src[2]
+        m = len(sb)
+        if tk == "bv" or sk == "bv":
+            return ("w", sb) if m == n else ("x",)
+        if tk == "uns":
+            return ("w", sb + "0" * (n - m)) if sk == "uns" and m <= n else ("x",)
+        if sk == "sgn":
+            return ("w", sb + sb[-1] * (n - m)) if m <= n else ("x",)
+        return ("w", sb + "0" * (n - m)) if m < n else ("x",)
+    if k == "view":
+        ss = slots[src[1]]
+        if ss is None or ss[0] == "bit":
+            return ("x",)
+        sk, m = ss
+        if tk == "bv" or sk == "bv":
+            return ("cs", src[1]) if m == n else ("x",)
+        if tk == "uns":
+            return ("cs", src[1]) if sk == "uns" and m <= n else ("x",)
+        if sk == "sgn":
+            return ("cn", src[1], "s") if m <= n else ("x",)
+        return ("cn", src[1], "z") if m < n else ("x",)
+    return ("x",)
+
+
+def sess_line(sess):
+    qual, d, vt, init, steps = sess
+    slots = slot_kinds(vt, len(init), steps)
+    out = []
+    for st in steps:
+        if st[0] == "v":
+            out.append(f"v {st[1]} {op_tok(st[2])}")
+            continue
+        _, t, cast, src = st
+        tk = slots[t]
+        if tk is None or (cast is not None and tk[0] == "bit"):
+            out.append("x")
+            continue
+        e = expected_write(cast or tk[0], tk[1], src, slots)
+        out.append({"w": lambda: f"w {t} {e[1]}", "cs": lambda: f"cs {t} {e[1]}", "cn": lambda: f"cn {t} {e[1]} {e[2]}",
+                    "x": lambda: "x"}[e[0]]())
+    return f"sess {vt} {init} " + " / ".join(out)
+
+
+def gen_source(rng, tk, n, slots):
+    r = rng.random()
+    if tk == "bit":
+        c = rng.choice(["null", "full", "bit", "bool", "int", "str", "view", "bad"])
+        if c in ("null", "full"):
+            return (c,)
+        if c in ("bit", "bool"):
+            return (c, rng.random() < 0.5)
+        if c == "int":
+            return ("int", rng.choice([0, 1, 0, 1, 2]))
+        if c == "str":
+            return ("str", rng.choice("01"))
+        if c == "view":
+            cands = [i for i, sk in enumerate(slots) if sk is not None and sk[0] == "bit"]
+            if cands:
+                return ("view", rng.choice(cands))
+        return ("vec", "bv", "1")
+    if r < 0.14:
+        return ("null",)
+    if r < 0.28:
+        return ("full",)
+    if r < 0.40:
+        m = n if rng.random() < 0.9 else n + 1
+        return ("str", "".join(rng.choice("01") for _ in range(m)))
+    if r < 0.52:
+        if tk == "sgn":
+            return ("int", rng.randrange(-(1 << (n - 1)) - (1 if rng.random() < 0.1 else 0), (1 << (n - 1)) + (1 if rng.random() < 0.1 else 0)))
+        return ("int", rng.randrange(-1 if rng.random() < 0.1 else 0, (1 << n) + (1 if rng.random() < 0.1 else 0)))
+    if r < 0.76:
+        sk = rng.choice(["bv", "uns", "sgn", tk])
+        m = n if (sk == "bv" or tk == "bv" or rng.random() < 0.5) else max(1, n - rng.randrange(0, 3))
+        if rng.random() < 0.06:
+            m = n + 1
+        return ("vec", sk, "".join(rng.choice("01") for _ in range(m)))
+    cands = [i for i, sk in enumerate(slots) if sk is not None and sk[0] != "bit" and (sk[1] == n or (sk[1] <= n and rng.random() < 0.3))]
+    if cands:
+        return ("view", rng.choice(cands))
+    return rng.choice([("null",), ("full",)])
+
+
+def gen_session(rng):
+    qual = rng.choice(QKS + ["prim"])
+    d = rng.choice(DIRS) if qual == "port" else "-"
+    vt = rng.choice(["bv", "uns", "sgn"])
+    w = rng.choice([1, 2, 3, 4, 6, 8, 8, 12])
+    init = "".join(rng.choice("01") for _ in range(w))
+    steps = []
+    for _ in range(rng.randrange(2, 14)):
+        slots = slot_kinds(vt, w, steps)
+        live = [i for i, sk in enumerate(slots) if sk is not None]
+        if rng.random() < 0.45 and len(slots) < 9:
+            vec = [i for i in live if slots[i][0] != "bit"]
+            p = rng.choice(vec)
+            n = slots[p][1]
+            c = rng.random()
+            if c < 0.45:
+                h = rng.randrange(n)
+                op = ("slice", h, rng.randrange(h + 1))
+            elif c < 0.7:
+                op = ("cast", rng.choice(["uns", "sgn", "bv"]))
+            elif c < 0.85:
+                op = ("index", rng.randrange(n))
+            else:
+                op = ("iter", rng.randrange(n))
+            if rng.random() < 0.03:
+                op = ("slice", n, 0)          # rejected construction
+            steps.append(("v", p, op))
+        else:
+            t = rng.choice(live + [0])
+            tk, n = slots[t]
+            cast = rng.choice(["uns", "sgn", "bv"]) if tk != "bit" and rng.random() < 0.15 else None
+            steps.append(("w", t, cast, gen_source(rng, cast or tk, n, slots)))
+    return (qual, d, vt, init, steps)
+
+
+def _mk_prim_root(vt, w):
+    from cohdl import BitVector, Unsigned, Signed
+    return {"bv": BitVector, "uns": Unsigned, "sgn": Signed}[vt][w]()
+
+
+def _py_session(sess):
+    """run the session on the real objects; same canonical answer as the model's `sess` command plus the list of
+    property-level observations (a live view that does not show the root's cells, changed root / qualifier)"""
+    qual, d, vt, init, steps = sess
+    import_cohdl()
+    from cohdl import BitVector, Unsigned, Signed, Bit, Null, Full, Signal, Variable
+    KIND = {"bv": BitVector, "uns": Unsigned, "sgn": Signed}
+    w = len(init)
+    prim = qual == "prim"
+    root = _mk_prim_root(vt, w) if prim else _mk_root(qual, d, vt, w)
+    (root if prim else root._value)._assign(BitVector[w](init[::-1]))
+
+    def prim_of(x):
+        return x if prim else x._value
+
+    def shown(x):
+        v = prim_of(x)
+        return str(v) if isinstance(v, Bit) else "".join(str(b) for b in v._value._data)
+
+    def root_bits():
+        return list(prim_of(root)._value._data)
+
+    live = [root]
+    cells = [list(range(w))]
+    out, flags = [], []
+    for n, st in enumerate(steps):
+        status = "ok"
+        if st[0] == "v":
+            try:
+                par = live[st[1]]
+                if par is None:
+                    raise IndexError()
+                op = st[2]
+                if prim:
+                    if op[0] == "slice":
+                        y = par[op[1]:op[2]]
+                    elif op[0] == "index":
+                        y = par[op[1]]
+                    elif op[0] == "iter":
+                        y = list(iter(par))[op[1]]
+                    else:
+                        y = {"uns": lambda: par.unsigned, "sgn": lambda: par.signed, "bv": lambda: par.bitvector}[op[1]]()
+                else:
+                    y = _apply_view(par, op)
+                pos = {id(b): i for i, b in enumerate(root_bits())}
+                v = prim_of(y)
+                bits = [v] if isinstance(v, Bit) else list(v._value._data)
+                live.append(y)
+                cells.append([pos.get(id(b), -1) for b in bits])
+                if not prim:
+                    if y._root is not root:
+                        flags.append(f"step {n}: _root of the new view is not the root")
+                    if type(y)._Qualifier is not type(root)._Qualifier or (qual == "port" and type(y)._direction is not type(root)._direction):
+                        flags.append(f"step {n}: qualifier of the new view differs from the root's")
+            except Exception:  # noqa
+                live.append(None)
+                cells.append(None)
+                status = "reject"
+        else:
+            _, t, cast, src = st
+            try:
+                tgt = live[t]
+                if tgt is None:
+                    raise IndexError()
+                k = src[0]
+                if k == "null":
+                    val = Null
+                elif k == "full":
+                    val = Full
+                elif k == "str":
+                    val = src[1][::-1]
+                elif k == "vec":
+                    val = KIND[src[1]][len(src[2])](src[2][::-1])
+                elif k == "int":
+                    val = src[1]
+                elif k == "bit":
+                    val = Bit(src[1])
+                elif k == "bool":
+                    val = bool(src[1])
+                else:
+                    val = live[src[1]]
+                    if val is None:
+                        raise IndexError()
+                if cast is not None:
+                    if isinstance(prim_of(tgt), Bit):
+                        raise TypeError()
+                    val = prim_of(val) if k == "view" and not prim else val
+                    if cast == "uns":
+                        tgt.unsigned = val
+                    elif cast == "sgn":
+                        tgt.signed = val
+                    else:
+                        tgt.bitvector = val
+                elif prim:
+                    tgt._assign(val)
+                elif isinstance(tgt, Signal):
+                    if n % 2:
+                        tgt.next = val
+                    else:
+                        tgt <<= val
+                elif isinstance(tgt, Variable):
+                    tgt.value = val
+                else:
+                    tgt._value._assign(prim_of(val) if k == "view" else val)
+            except Exception:  # noqa
+                status = "reject"
+        rb = "".join(str(b) for b in root_bits())
+        out.append(status + ":" + rb + ":" + ",".join("-" if x is None else shown(x) for x in live))
+        for i, x in enumerate(live):
+            if x is None:
+                continue
+            want = "".join(rb[c] if 0 <= c < w else "?" for c in cells[i])
+            if shown(x) != want:
+                flags.append(f"after step {n}: view in slot {i} shows {shown(x)[::-1]}, the root's cells {cells[i]} hold {want[::-1]}")
+                break
+    return ";".join(out), flags
+
+
+def _session_task(sess):
+    return _py_session(sess)
+
+
+def step_str(st):
+    if st[0] == "v":
+        return f"#{st[1]}{op_py(st[2])}"
+    _, t, cast, src = st
+    val = {"null": "Null", "full": "Full"}.get(src[0]) or (
+        f"'{src[1][::-1]}'" if src[0] == "str" else f"{src[1]}[{len(src[2])}]('{src[2][::-1]}')" if src[0] == "vec" else
+        f"#{src[1]}" if src[0] == "view" else f"Bit({int(src[1])})" if src[0] == "bit" else str(src[1]))
+    return f"#{t}{'.' + {'uns': 'unsigned', 'sgn': 'signed', 'bv': 'bitvector'}[cast] if cast else ''} <- {val}"
+
+
+def sess_str(sess):
+    qual, d, vt, init, steps = sess
+    return f"{qual}[{vt}[{len(init)}]]('{init[::-1]}'): " + " ; ".join(step_str(s) for s in steps)
+
+
+def drop_step(steps, i):
+    """remove step i; a removed view step takes its slot with it (later references are dropped / renumbered)"""
+    st = steps[i]
+    rest = steps[:i] + steps[i + 1:]
+    if st[0] != "v":
+        return rest
+    k = 1 + sum(1 for s in steps[:i] if s[0] == "v")
+    out = []
+
+    def ren(x):
+        return x - 1 if x > k else x
+
+    for s in rest:
+        if s[0] == "v":
+            if s[1] == k:
+                return None
+            out.append(("v", ren(s[1]), s[2]))
+        else:
+            if s[1] == k or (s[3][0] == "view" and s[3][1] == k):
+                return None
+            src = ("view", ren(s[3][1])) if s[3][0] == "view" else s[3]
+            out.append(("w", ren(s[1]), s[2], src))
+    return out
+
+
+def sess_fails(sess):
+    m = lean_io.query("C13", [sess_line(sess)])[0]
+    p, flags = _py_session(sess)
+    return m != p or bool(flags)
+
+
+def _shrink_session_task(sess):
+    qual, d, vt, init, steps = sess
+    steps = list(steps)
+    for _round in range(4):
+        before = (qual, d, vt, init, list(steps))
+        changed = True
+        while changed:
+            changed = False
+            for i in reversed(range(len(steps))):
+                cand = drop_step(steps, i)
+                if cand is not None and cand and sess_fails((qual, d, vt, init, cand)):
+                    steps, changed = cand, True
+                    break
+        for q2, d2 in (("signal", "-"), ("prim", "-")):
+            if qual != q2 and sess_fails((q2, d2, vt, init, steps)):
+                qual, d = q2, d2
+                break
+        if vt != "bv" and sess_fails((qual, d, "bv", init, steps)):
+            vt = "bv"
+        for alt in ("0" * len(init), "1" * len(init)):
+            if init != alt and sess_fails((qual, d, vt, alt, steps)):
+                init = alt
+                break
+        if before == (qual, d, vt, init, list(steps)):
+            break
+    sess = (qual, d, vt, init, steps)
+    m = lean_io.query("C13", [sess_line(sess)])[0]
+    p, flags = _py_session(sess)
+    return sess, m, p, flags
+
+
+def tie_sessions(ctx: Ctx):
+    rng = ctx.rng
+    sessions = [gen_session(rng) for _ in range(ctx.scale(1200, 20000))]
+    # systematic part: every kind of view taken BEFORE, every kind of whole / partial write, read AFTER
+    for vt in ("bv", "uns", "sgn"):
+        for qual in ("signal", "variable", "prim"):
+            for src in (("null",), ("full",), ("str", "0110"), ("vec", vt, "1001"), ("vec", "bv", "0101")) + ((("int", 5),) if vt != "bv" else ()):
+                views = [("v", 0, ("slice", 3, 1)), ("v", 0, ("index", 2)), ("v", 0, ("iter", 0)),
+                         ("v", 0, ("cast", "uns" if vt != "uns" else "sgn")), ("v", 1, ("slice", 1, 1))]
+                sessions.append((qual, "-", vt, "1010", views + [("w", 0, None, src), ("v", 0, ("slice", 2, 0)),
+                                                                 ("w", 1, None, ("full",)), ("w", 4, None, ("null",)),
+                                                                 ("w", 6, None, ("str", "101")), ("w", 0, "bv", ("full",)),
+                                                                 ("w", 2, None, ("bool", False)), ("w", 0, None, ("view", 4))]))
+    lines = [sess_line(s) for s in sessions]
+    model = lean_io.query("C13", lines)
+    impl = fork_map(_session_task, sessions, fresh=False, chunk=64)
+    bad = 0
+    failing = []
+    for sess, ln, m, r in zip(sessions, lines, model, impl):
+        if r[0] != "ok":
+            raise InfraError(f"session task failed: {r[1]}\n{r[2]}")
+        if m == "bad-op":
+            raise InfraError(f"model rejects {ln}")
+        p, flags = r[1]
+        nw = sum(1 for st in m.split(";") if st.startswith("ok")) if m else 0
+        steps = sess[4]
+        kinds = {st[3][0] for st in steps if st[0] == "w"}
+        ctx.case(key=("sess", sess[0], sess[1], ln), nontrivial=len(kinds) >= 2 and any(s[0] == "v" for s in steps) and nw >= 3,
+                 kind=f"session:{sess[0]}:{sess[2]}", sample={"session": sess_str(sess), "model": m[-80:]})
+        for st in steps:
+            ctx.dist["sess:" + ("view" if st[0] == "v" else "write-" + st[3][0] + ("-setter" if st[2] else ""))] += 1
+        if m == p and not flags:
+            continue
+        bad += 1
+        if bad <= 3:
+            failing.append(sess)
+    reported = set()
+    for sr in (fork_map(_shrink_session_task, failing, fresh=False) if failing else []):
+        if sr[0] != "ok":
+            raise InfraError(f"shrinking failed: {sr[1]}\n{sr[2]}")
+        sess, m, p, flags = sr[1]
+        sig = "session:" + sess_str(sess)
+        if sig in reported:
+            continue
+        reported.add(sig)
+        first = next((i for i, (a, b) in enumerate(zip(m.split(";"), p.split(";"))) if a != b), None)
+        what = flags[0] if flags else f"step {first}: implementation `{p.split(';')[first]}`, aliasing semantics `{m.split(';')[first]}` (status:root:views, lsb first)"
+        ctx.report(sig, f"views / writes session {sess_str(sess)}: {what}",
+                   {"tie": "session", "session": sess, "expected": m, "observed": p, "flags": flags})
+    ctx.obligation("correspondence: after every step of sessions interleaving view construction and writes of every source kind "
+                   "(str, int, vectors, Bit/bool, Null, Full, other views; through root, views and cast setters), root and all live "
+                   "views of the real objects = Lean `Sess.step` / `Sess.shown`", bad == 0,
+                   detail=f"{len(sessions)} sessions, {bad} with differences")
+
 
 
 def lean_io_width(w, ops):
@@ -1145,10 +1594,13 @@ def run(ctx: Ctx):
                 "fresh interpreter; non-trivial = >= 3 distinct accepted parameter tuples and >= 5 lazily created classes; distinct = "
                 "distinct action list.  (2) view chains of slices/indices/casts/iteration on all qualifier kinds, plus all chains of <= 2 "
                 "slices + index/iteration on width 4; non-trivial = >= 2 nested slices and accepted.  (3) write sequences through views; "
-                "non-trivial = >= 2 accepted writes.  (4) compiled designs reading/writing nested views, simulated; non-trivial = a view "
+                "non-trivial = >= 2 accepted writes; sessions interleaving view construction (before and after writes) with writes of "
+                "every source kind through root / views / cast setters on bv/uns/sgn roots of all qualifier kinds and unqualified "
+                "vectors, all live views checked after every step; non-trivial = >= 2 source kinds, a view and >= 3 accepted steps.  (4) compiled designs reading/writing nested views, simulated; non-trivial = a view "
                 "with >= 2 nested slices")
     tie_types(ctx)
     tie_views(ctx)
+    tie_sessions(ctx)
     tie_names(ctx)
 
 
@@ -1169,6 +1621,17 @@ def replay(ctx, data):
         print("expected:", m)
         print("observed:", p, flags)
         return 0 if (m == p and not flags) else 1
+    if r["tie"] == "session":
+        sess = tuple_deep(r["session"])
+        sess = (sess[0], sess[1], sess[2], sess[3], list(sess[4]))
+        m = lean_io.query("C13", [sess_line(sess)])[0]
+        pr = fork_map(_session_task, [sess], fresh=False)[0]
+        print("session :", sess_str(sess))
+        print("expected:", m)
+        print("observed:", pr[1][0] if pr[0] == "ok" else pr[1])
+        for f in (pr[1][1] if pr[0] == "ok" else []):
+            print("  ", f)
+        return 0 if (pr[0] == "ok" and pr[1][0] == m and not pr[1][1]) else 1
     if r["tie"] == "write":
         ws = [([tuple(o) for o in ops], bits) for ops, bits in r["writes"]]
         line = f"wr {r['w']} {r['init']} " + " / ".join(" ".join(op_tok(o) for o in ops) + " = " + bits for ops, bits in ws)
